@@ -18,6 +18,8 @@ open Cell2v.Driver Cell2v.Loop
 
 structure St where
   started : Bool := false
+  /-- the case's event centres are in queue mode (`localUseChan`) -/
+  useChan : Bool := true
 
 structure Burst where
   p : Nat
@@ -36,6 +38,7 @@ structure Burst where
   slow : Nat
   z : Nat
   sib : Nat
+  own : Nat
   dw : String
 
 def fieldOk (ws : List String) (key : String) : Option Nat :=
@@ -60,17 +63,25 @@ def parseBurst (ws : List String) : Option Burst := do
   let slow ← fieldOk ws "slow"
   let z ← fieldOk ws "z"
   let sib ← fieldOk ws "sib"
+  let own ← fieldOk ws "own"
   let dw ← kv ws "dw"
   if !(["sleep", "yield", "spin", "mix"].contains dw) then none
-  else if p < 1 || p > 16 || tmo > 1 || ses > 40 || msg > 40 || slow > 10 || sib > 12 then none
-  else some { p, post, tmr, rep, lev, gev, req, raw, ntf, tmo, sfl, ses, msg, slow, z, sib, dw }
+  else if p < 1 || p > 16 || tmo > 1 || ses > 40 || msg > 40 || slow > 10 || sib > 12 || own > 1 then none
+  else some { p, post, tmr, rep, lev, gev, req, raw, ntf, tmo, sfl, ses, msg, slow, z, sib, own, dw }
 
 def b2n (b : Bool) : Nat := if b then 1 else 0
 
 /-- entries per kind of one service, in the harness' fixed order; `front` = the service that owns the client sessions -/
-def counts (b : Burst) (front : Bool) : List (String × Nat) :=
-  [("post", b.post + b2n (b.tmr + b.rep + b.z > 0) + b2n (b.req + b.raw + b.tmo + b.sfl > 0) + b2n (front && b.sib > 0)),
-   ("tmr", b.tmr + b.rep), ("tz", 2 * b.z), ("lev", b.lev), ("gev", b.gev), ("req", b.req), ("mute", b.tmo),
+def counts (useChan : Bool) (b : Burst) (front : Bool) : List (String × Nat) :=
+  -- local events are published by the owner when asked to (`own`) and always for a centre in direct mode
+  let ownLev := b.lev > 0 && (b.own == 1 || !useChan)
+  let ownGev := b.gev > 0 && b.own == 1 && front
+  [("post", b.post + b2n (b.tmr + b.rep + b.z > 0) + b2n (ownLev || ownGev) +
+      b2n (b.req + b.raw + b.tmo + b.sfl > 0) + b2n (front && b.sib > 0)),
+   ("tmr", b.tmr + b.rep), ("tz", 2 * b.z),
+   ("lev", if useChan then b.lev else 0), ("dlev", if useChan then 0 else b.lev),
+   -- global events reach a centre through its channel in both modes
+   ("gev", b.gev), ("req", b.req), ("mute", b.tmo),
    ("raw", b.raw), ("ntf", b.ntf + 3 * b.slow), ("slow", b.slow), ("sib", if front then b.sib else 0),
    ("rsp", b.req + b.raw), ("tmo", b.tmo), ("sfl", b.sfl)] ++
   (if front then [("sadd", b.ses), ("smsg", b.ses * b.msg), ("srem", b.ses)] else [])
@@ -82,12 +93,26 @@ def showSvc (cs : List (String × Nat)) : String :=
 def step (s : St) (line : String) : St × String :=
   let ws := words line
   match ws with
-  | ["reset"] => ({ started := true }, "ok A:post=1/1/1 B:post=1/1/1")
+  | ["reset"] => ({ started := true, useChan := true }, "ok A:post=1/1/1 B:post=1/1/1")
   | "burst" :: rest =>
-    if ws.length != 18 || !s.started then (s, "bad-op")
+    if ws.length != 19 || !s.started then (s, "bad-op")
     else match parseBurst rest with
       | none => (s, "bad-op")
-      | some b => (s, "ok A:" ++ showSvc (counts b true) ++ " B:" ++ showSvc (counts b false))
+      | some b => (s, "ok A:" ++ showSvc (counts s.useChan b true) ++ " B:" ++ showSvc (counts s.useChan b false))
+  | ["evmode", m] =>
+    if !s.started then (s, "bad-op")
+    else if m == "chan=0" then ({ s with useChan := false }, "ok A:post=1/1/1 B:post=1/1/1")
+    else if m == "chan=1" then ({ s with useChan := true }, "ok A:post=1/1/1 B:post=1/1/1")
+    else (s, "bad-op")
+  | ["stop", _, _, _] =>
+    match kv ws "who", kvNat ws "q", kvNat ws "ses" with
+    | some who, some q, some k =>
+      if !s.started || q > 400 || k > 40 || (who != "foreign" && who != "loop") then (s, "bad-op")
+      else
+        -- the stopping piece runs; how many of the queued closures still run is up to the loop's select ("~");
+        -- the k sessions were added before the stop; nothing runs after it (no `srem`)
+        ({ s with started := false }, "ok A:post=~/1/1" ++ (if k > 0 then s!",sadd={k}/1/1" else "") ++ " B:")
+    | _, _, _ => (s, "bad-op")
   | _ => (s, "bad-op")
 
 /-! ### spec -/
@@ -98,7 +123,7 @@ def parseElem (e : String) : Option (String × Mon) :=
   | [kind, v] =>
     match v.splitOn "/" with
     | [c, g, m] =>
-      match c.toNat?, m.toNat? with
+      match (if c == "~" then some 0 else c.toNat?), m.toNat? with
       | some _, some peak => some (kind, { cur := 0, peak := peak, foreign := g != "1" })
       | _, _ => none
     | _ => none
